@@ -41,12 +41,41 @@ static void *__va_arg_fp(__va_elem *ap, int sz, int align) {
   return r;
 }
 
+// A struct or union of up to 16 bytes is passed in registers only if
+// all of it fits in the remaining registers; its eightbytes are then
+// gathered from the GP and XMM parts of the register save area.
+static void *__va_arg_struct(__va_elem *ap, int klass, int sz, int align, char *buf) {
+  int fp1 = klass & 1;
+  int fp2 = (klass & 2) != 0;
+  int nfp = fp1 + (sz > 8 && fp2);
+  int ngp = !fp1 + (sz > 8 && !fp2);
+
+  if (ap->gp_offset + ngp * 8 > 48 || ap->fp_offset + nfp * 16 > 176)
+    return __va_arg_mem(ap, sz, align);
+
+  for (int i = 0; i < sz; i += 8) {
+    char *src = ap->reg_save_area;
+    if (i == 0 ? fp1 : fp2) {
+      src += ap->fp_offset;
+      ap->fp_offset += 16;
+    } else {
+      src += ap->gp_offset;
+      ap->gp_offset += 8;
+    }
+    for (int j = 0; j < 8 && i + j < sz; j++)
+      buf[i + j] = src[j];
+  }
+  return buf;
+}
+
 #define va_arg(ap, ty)                                                  \
   ({                                                                    \
     int klass = __builtin_reg_class(ty);                                \
+    char __va_buf[16];                                                  \
     *(ty *)(klass == 0 ? __va_arg_gp(ap, sizeof(ty), _Alignof(ty)) :    \
             klass == 1 ? __va_arg_fp(ap, sizeof(ty), _Alignof(ty)) :    \
-            __va_arg_mem(ap, sizeof(ty), _Alignof(ty)));                \
+            klass == 2 ? __va_arg_mem(ap, sizeof(ty), _Alignof(ty)) :   \
+            __va_arg_struct(ap, klass, sizeof(ty), _Alignof(ty), __va_buf)); \
   })
 
 #define va_copy(dest, src) ((dest)[0] = (src)[0])
